@@ -419,6 +419,17 @@ func TestC01(t *testing.T) {
 	if ev.Thorough() {
 		lunarNext.Exhaustive("every civil day 1..9998 x step sizes {1, 29} (and seven more sizes on every third day)")
 	}
+	// a dense window of days asked again in scrambled order (same oracle, different predecessor: a memo keyed on too
+	// little answers the previous question)
+	{
+		start := ref.JDN(2019, 1, 1) + ev.Shard*230
+		for _, perm := range ev.Shuffled(460, ev.Pick(2, 8), 1) {
+			for _, k := range perm {
+				yy, mm, dd := ref.FromJDN(start + k)
+				civilLunarCivil.Eval(dayCase{ref.DT{Y: yy, M: mm, D: dd, H: []int{0, 12, 23}[k%3]}})
+			}
+		}
+	}
 	civilLunarCivil.Rapid(ev.Share(ev.Pick(16000, 400000)), func(t *rapid.T) dayCase { return dayCase{gen.Moment(t)} })
 	lunarCivilLunar.Rapid(ev.Share(ev.Pick(16000, 400000)), genLunar)
 	pathIndependence.Rapid(ev.Share(ev.Pick(1600, 48000)), func(t *rapid.T) pathCase {
